@@ -827,8 +827,15 @@ class Engine:
             self.yield_handlers = []
             self.call_depth = 0
             self.current_func = []
+            n_before = len(self.results)
             try:
-                harness(self)
+                try:
+                    harness(self)
+                except (IndexError, AttributeError, TypeError, KeyError, AssertionError, ValueError):
+                    # contract code tripping over a post-state it has just reported as wrong (e.g. sent[0] after
+                    # "exactly one frame sent" was refuted): the refuted obligation stands, the follow-up error is noise
+                    if not any(r.status == 'refuted' for r in self.results[n_before:]):
+                        raise
             except PathEnd:
                 pass
             except Unsupported as u:
@@ -875,8 +882,24 @@ class Engine:
         if isinstance(handler_type, tuple):
             return any(self.exc_matches(exc_value, t) for t in handler_type)
         if isinstance(handler_type, PyClass):
-            return exc_value.cls.issubclass(handler_type)
+            return self.instance_of_class(exc_value, handler_type)
         raise Unsupported('except clause with %r' % (handler_type,))
+
+    def instance_of_class(self, obj, cls):
+        """isinstance(obj, cls) for SObj.  An exception raised by *application code* (weakest contract: "may raise any
+        Exception") has an unknown class: it may well be one of the library's own exception classes, which `except` clauses
+        and isinstance tests of the library treat differently.  The class is therefore decided lazily, by branching, the
+        first time the library asks - consistently with the class hierarchy."""
+        if obj.cls.issubclass(cls):
+            return True
+        if 'from_opaque' in obj.attrs and cls.issubclass(obj.cls) and not cls.builtin:
+            if any(cls.issubclass(n) for n in obj.attrs.get('not_instance_of', ())):
+                return False
+            if self.path.choice(2, 'application-exception-is-a-%s' % cls.name) == 1:
+                self.models.narrow_opaque_exception(self, obj, cls)
+                return True
+            obj.attrs.setdefault('not_instance_of', []).append(cls)
+        return False
 
     # ------------------------------------------------------------------ attribute access
     def getattr(self, obj, name):
